@@ -135,7 +135,7 @@ class U:
             self.path.idx_terms, self.path.idx_tags, self.path.idx_seen = saved
         from .core import solve_valid
 
-        res, backend, model = solve_valid(hyps, f, self.path.ex.timeout_ms)
+        res, backend, model = solve_valid(hyps, f, min(3000, self.path.ex.timeout_ms))  # "not provable quickly" suffices
         ob.backend = backend
         ob.status = "discharged" if res == "invalid" else ("failed" if res == "valid" else "unknown")
         if res == "invalid" and model:
@@ -179,6 +179,8 @@ def run_unit(unit: Unit, timeout_ms=None, repo_root=None) -> UnitResult:
     res = UnitResult(unit)
     t0 = time.time()
     repo = Repo(repo_root)
+    if unit.config.get("timeout_ms"):
+        timeout_ms = max(timeout_ms or 0, unit.config["timeout_ms"])
     ex = Explorer(timeout_ms=timeout_ms, max_paths=unit.config.get("max_paths", 3000))
     # locate functions, hash sources
     try:
